@@ -5,7 +5,7 @@
 From Coq Require Import Strings.String Strings.Byte.
 From Coq Require Import List Arith NArith ZArith Bool Lia Permutation.
 From Verif Require Import Base.Bytes Model.Strconv Model.UrlQuery Model.PlainCodec Model.FormCodec
-  Model.LibCodecs Proofs.StrconvProofs Proofs.UrlQueryProofs Proofs.PlainCodecProofs
+  Model.LibCodecs Model.MsgBody Proofs.MsgBodyProofs Proofs.StrconvProofs Proofs.UrlQueryProofs Proofs.PlainCodecProofs
   Proofs.FormCodecProofs Proofs.LibCodecsProofs.
 Import ListNotations.
 
@@ -196,6 +196,80 @@ Theorem C11_lib_dispatch_total :
   forall data d, dispatch_unmarshal msg lib_unmarshal data d <> Panic.
 Proof. exact dispatch_total_lemma. Qed.
 Print Assumptions C11_lib_dispatch_total.
+
+(* ---- socket/message.go: the byte-stream bypass of MarshalBody / UnmarshalBody ----
+   for every codec table (typed bodies delegate to it), every codec id, every payload *)
+
+(* After UnmarshalBody into a *[]byte the body equals the payload exactly, length included,
+   whatever the destination held before (longer, shorter, empty, nil slice), whatever its spare
+   capacity, whatever the codec id, with or without newBodyFunc. *)
+Theorem C11_body_bytes_exact :
+  forall T (cu : byte -> option (bytes -> T -> outcome T)) id data s nb,
+  data <> [] ->
+  exists s', unmarshal_body T cu id data (DPtr T s) nb = Ok (DPtr T s') /\ bs_vis s' = data.
+Proof. exact unmarshal_bytes_exact. Qed.
+Print Assumptions C11_body_bytes_exact.
+
+Theorem C11_body_bytes_exact_newbody :
+  forall T (cu : byte -> option (bytes -> T -> outcome T)) id data s,
+  data <> [] ->
+  exists s', unmarshal_body T cu id data (DNone T) (Some (DPtr T s)) = Ok (DPtr T s') /\ bs_vis s' = data.
+Proof. exact unmarshal_bytes_exact_newbody. Qed.
+Print Assumptions C11_body_bytes_exact_newbody.
+
+(* The exception the code makes: an EMPTY payload returns before the type switch, so the body is
+   left exactly as it is - a reused *[]byte keeps its old bytes, a typed body is not handed to
+   its codec.  (Stated, not hidden: with a fresh destination, as newBodyFunc provides, the body
+   is then the empty value.) *)
+Theorem C11_body_empty_payload_untouched :
+  forall T (cu : byte -> option (bytes -> T -> outcome T)) id (d : mdst T),
+  unmarshal_body T cu id [] d None = Ok d.
+Proof. exact unmarshal_empty_payload. Qed.
+Print Assumptions C11_body_empty_payload_untouched.
+
+(* MarshalBody hands a []byte / *[]byte through unchanged and UnmarshalBody restores it, under
+   any pair of codec ids *)
+Theorem C11_body_bytes_roundtrip :
+  forall T cm (cu : byte -> option (bytes -> T -> outcome T)) id id' b (p : bool) s nb,
+  b <> [] ->
+  exists enc s', marshal_body T cm id (if p then SPtr T b else SVal T b) = Ok enc /\
+                 unmarshal_body T cu id' enc (DPtr T s) nb = Ok (DPtr T s') /\ bs_vis s' = b.
+Proof. exact body_bytes_roundtrip. Qed.
+Print Assumptions C11_body_bytes_roundtrip.
+
+(* the store stays inside the destination's backing array: a payload that fits the capacity
+   leaves the window's length and the bytes beyond the payload untouched *)
+Theorem C11_body_store_inside_capacity : forall s data,
+  length data <= bs_cap s ->
+  length (bs_window (store s data)) = bs_cap s /\
+  bs_spare (store s data) = skipn (length data) (bs_window s).
+Proof. exact store_inside_capacity. Qed.
+Print Assumptions C11_body_store_inside_capacity.
+
+(* UnmarshalBody never panics as long as the codec it delegates to does not (nil body, nil
+   *[]byte, unknown codec id included) *)
+Theorem C11_body_decode_total :
+  forall T (cu : byte -> option (bytes -> T -> outcome T)) id data d nb,
+  (forall u x t, cu id = Some u -> u x t <> Panic) ->
+  unmarshal_body T cu id data d nb <> Panic.
+Proof. exact unmarshal_body_total. Qed.
+Print Assumptions C11_body_decode_total.
+
+(* a rewrite that only grows the destination (no truncation) violates exactness: "s" into a
+   body holding "longer" gives "songer" *)
+Theorem C11_body_no_truncation_refuted :
+  forall T (cu : byte -> option (bytes -> T -> outcome T)),
+  exists id data s, data <> [] /\
+    forall s', unmarshal_body_notrunc T cu id data (DPtr T s) None = Ok (DPtr T s') -> bs_vis s' <> data.
+Proof. exact unmarshal_notrunc_refuted. Qed.
+Print Assumptions C11_body_no_truncation_refuted.
+
+(* the pinned code dereferenced a nil *[]byte body *)
+Theorem C11_body_nil_pointer_refuted :
+  forall T (cu : byte -> option (bytes -> T -> outcome T)),
+  exists id data, unmarshal_body_prefix T cu id data (DPtrNil T) None = Panic.
+Proof. exact unmarshal_nil_ptr_refuted. Qed.
+Print Assumptions C11_body_nil_pointer_refuted.
 
 (* ---- non-vacuity ---- *)
 
